@@ -17,7 +17,7 @@ PROPERTY = "C08"
 LEVEL = "fault_enumeration"
 RULE = (
     "Generated block programs: an underlying iterator (async generator / class with aclose / plain-awaitable "
-    "class / class with asend+athrow / a list / a one-shot sync iterator / a __getitem__ sequence) of 0-8 items is opened with scoped_iter, nested up to depth 3 "
+    "class / class with asend+athrow / a list / a one-shot sync iterator / a __getitem__ sequence / a loan (a.borrow) of a class iterator) of 0-8 items is opened with scoped_iter, nested up to depth 3 "
     "(inner scopes over the outer handle, generated entry/exit positions); inside, up to 20 operations from "
     "{next / asend on the handle of any open level, next / asend on a handle whose scope ended, aclose that handle, hand it to one of 26 tools taking j items and "
     "closing or abandoning the tool, next on a handle whose scope already ended, an (erroneous) second __aenter__ of an active scope object}. Exit mode: fall-through, or an "
@@ -57,7 +57,7 @@ def programs(draw, tier):
     )
     ops = [list(o) for o in draw(st.lists(op, max_size=20))]
     raise_at = draw(st.one_of(st.none(), st.none(), st.integers(0, 20)))
-    return {"items": items, "kind": draw(st.sampled_from(["agen", "aclass", "aplain", "send", "list", "iter", "seq"])),
+    return {"items": items, "kind": draw(st.sampled_from(["agen", "aclass", "aplain", "send", "list", "iter", "seq", "loan"])),
             "susp": draw(st.integers(0, 1)), "ops": ops, "raise_at": raise_at,
             # what leaves the block at raise_at: an ordinary error, or what a generator / task shutdown delivers
             "exit_exc": draw(st.sampled_from(["Fault", "Fault", "GeneratorExit", "KeyboardInterrupt",
@@ -73,13 +73,17 @@ def run_program(case, cancel_at=None):
     ctx = Ctx("a")
     items = mats(case["items"])
     kind = case["kind"]
-    spec = {"fl": kind if kind != "send" else "aclass", "susp": case["susp"]}
-    if kind == "send":
+    spec = {"fl": kind if kind not in ("send", "loan") else "aclass", "susp": case["susp"]}
+    if kind in ("send", "loan"):
         src = SendSource(ctx, "u", items, spec)
     else:
         src = make_source(ctx, "u", items, spec, "a")
     underlying = src.obj
-    observable = kind not in ("list", "iter", "seq")  # sync iterables are wrapped by the library itself
+    if kind == "loan":
+        # what is scoped is itself a loan (a.borrow) of somebody else's iterator: the scope owns - and closes - the
+        # loan, never the iterator behind it
+        underlying = a.borrow(src.obj)
+    observable = kind not in ("list", "iter", "seq", "loan")  # sync iterables are wrapped by the library itself
     model = iter(list(items))
     problems = []
     import asyncio
@@ -239,6 +243,25 @@ def run_program(case, cancel_at=None):
                 raise Violation("C08/underlying-not-closed-at-exit", f"kind={kind} outcome={outcome[0]}", case=vcase)
             if src.close_calls > 1 and kind != "agen":
                 raise Violation("C08/underlying-closed-more-than-once", f"calls={src.close_calls}", case=vcase)
+        if kind == "loan":
+            if src.close_calls:
+                raise Violation("C08/scope-closed-the-iterator-behind-a-loan", f"calls={src.close_calls}", case=vcase)
+
+            async def probe_loan():
+                before = src.pulls
+                out = []
+                for via in ("__anext__", "asend"):
+                    try:
+                        value = await (underlying.__anext__() if via == "__anext__" else underlying.asend(None))
+                    except StopAsyncIteration:
+                        continue
+                    out.append((via, sig(value)))
+                return out, src.pulls - before
+
+            got = run(ctx, probe_loan())
+            if got[0] != "return" or got[1][0] or (got[1][1] and not src.exhausted):
+                raise Violation("C08/underlying-not-closed-at-exit", f"the scoped loan still works after the block: {got!r}",
+                                case=vcase)
         # every handle is dead now
 
         async def probe():
